@@ -176,7 +176,7 @@ type World struct {
 	Denied map[string]bool
 	// DenyFlips: history sequence numbers at which Denied changed
 	DenyFlips []uint64
-	extra  map[string]any
+	extra     map[string]any
 }
 
 const (
